@@ -49,6 +49,12 @@ the element string, attribute values as `repr` strings).  `RAtom` is an atom as 
 namespace C04.Ref
 open Iso C04 C19.Repair
 
+instance {ε α : Type} [DecidableEq ε] [DecidableEq α] : DecidableEq (Except ε α)
+  | .ok a, .ok b => if h : a = b then isTrue (by rw [h]) else isFalse (fun e => h (by cases e; rfl))
+  | .error a, .error b => if h : a = b then isTrue (by rw [h]) else isFalse (fun e => h (by cases e; rfl))
+  | .ok _, .error _ => isFalse (fun e => by cases e)
+  | .error _, .ok _ => isFalse (fun e => by cases e)
+
 /-! ## `make_reference` around the matcher -/
 
 inductive AName where
@@ -167,7 +173,7 @@ structure RefOut where
   refCopy : Graph
   /-- `none`: the matcher gave no answer, the residue is skipped (`inconsistent-data` error logged) -/
   mtch : Option Map
-  deriving Repr, Inhabited
+  deriving Repr, DecidableEq, Inhabited
 
 /-- the body of the loop of `make_reference` for one residue.  `res`/`ref`: atoms of the residue / of
 the reference block in node order, `answers`: what `largest_common_subgraph()` yields, in order. -/
@@ -348,7 +354,7 @@ structure PipeOut where
   refEdges : List (Nat × Nat)
   mtchs : List Map
   log : List Event
-  deriving Repr, Inhabited
+  deriving Repr, DecidableEq, Inhabited
 
 /-- `RepairGraph.run_molecule`: `make_reference` then `repair_graph`; `redges` = edges of the residue graph -/
 def pipeline (ff : FF) (m : Mol) (qs : List ResReq) (redges : List (Nat × Nat)) : Except PErr PipeOut :=
